@@ -7,7 +7,13 @@ from props import rcu_common as R
 def run(ctx):
     # Tier B: GPI.tla (general_instant: reader lock as three accesses, flip_and_wait over the thread list, two flips; one flip must fail)
     vlib.model_check_many(ctx, [dict(module_rel="smr/GPIMC.tla", cfg_rel="smr/GPI_q.cfg", workers=4),
-                                dict(module_rel="smr/GPIMC.tla", cfg_rel="smr/GPI_bad_oneflip.cfg", workers=2, expect_violation="Assert")], par=2)
+                                dict(module_rel="smr/GPIMC.tla", cfg_rel="smr/GPI_bad_oneflip.cfg", workers=2, expect_violation="Assert"),
+                                # GPB.tla (general_buffered: epoch-stamped buffer, push_buffer / synchronize / clear_buffer recursion; four refuted variants)
+                                dict(module_rel="smr/GPBMC.tla", cfg_rel="smr/GPB_s.cfg" if ctx.quick() else "smr/GPB_t.cfg", workers=3 if ctx.quick() else 8, timeout=3000),
+                                dict(module_rel="smr/GPBMC.tla", cfg_rel="smr/GPB_s_bad_EpochLate.cfg", workers=2, expect_violation="Assert"),
+                                dict(module_rel="smr/GPBMC.tla", cfg_rel="smr/GPB_s_bad_NoEpochCheck.cfg", workers=2, expect_violation="Assert"),
+                                dict(module_rel="smr/GPBMC.tla", cfg_rel="smr/GPB_s_bad_OneFlip.cfg", workers=2, expect_violation="Assert")] +
+                               ([] if ctx.quick() else [dict(module_rel="smr/GPBMC.tla", cfg_rel="smr/GPB_bad_FreeRejected.cfg", workers=4, expect_violation="Assert", timeout=3000)]), par=6)
     progs = R.PROGRAMS + [R.gen_program(ctx.rng) for _ in range(1 if ctx.quick() else 8)]
     st = [("dfs", 600 if ctx.quick() else 50000, 1 if ctx.quick() else 2), ("pct", 80 if ctx.quick() else 3000, 0), ("random", 40 if ctx.quick() else 1500, 0)]
     deep = [("dfs", 7000 if ctx.quick() else 400000, 3 if ctx.quick() else 4)]
